@@ -81,4 +81,253 @@ theorem XR.clipNp_ne_iff (x lo hi : XR α) (hx : x.isNaN = false) (hlo : lo.isNa
     exact (XR.ne_of_lt h).symm
 
 end xr
+
+section eps
+variable {α : Type} [LinearOrder α] [AddCommGroup α] [IsOrderedAddMonoid α]
+
+theorem XR.lt_of_lt_subEps {eps : α} (heps : 0 ≤ eps) (x lo : XR α)
+    (h : XR.lt x (lo.subEps eps) = true) : XR.lt x lo = true := by
+  cases x <;> cases lo <;> simp_all [XR.lt, XR.subEps]
+  exact lt_of_lt_of_le h (sub_le_self _ heps)
+
+theorem XR.lt_of_addEps_lt {eps : α} (heps : 0 ≤ eps) (x hi : XR α)
+    (h : XR.lt (hi.addEps eps) x = true) : XR.lt hi x = true := by
+  cases x <;> cases hi <;> simp_all [XR.lt, XR.addEps]
+  exact lt_of_le_of_lt (le_add_of_nonneg_right heps) h
+
+/-- the margin test never fires where the plain test does not -/
+theorem XR.outside_of_outsideEps {eps : α} (heps : 0 ≤ eps) (x lo hi : XR α)
+    (h : XR.outsideEps eps x lo hi = true) : XR.outside x lo hi = true := by
+  simp only [XR.outsideEps, XR.outside, Bool.or_eq_true] at *
+  rcases h with h | h
+  · exact Or.inl (XR.lt_of_lt_subEps heps _ _ h)
+  · exact Or.inr (XR.lt_of_addEps_lt heps _ _ h)
+
+theorem XR.outsideEps_false_of_ok {eps : α} (heps : 0 ≤ eps) (an : Bool) (x lo hi : XR α)
+    (h : okElem an x lo hi = true) : XR.outsideEps eps x lo hi = false := by
+  by_contra hc
+  have ho := XR.outside_of_outsideEps heps x lo hi (by simpa using hc)
+  simp only [okElem, XR.within, XR.outside, Bool.or_eq_true, Bool.and_eq_true, Bool.not_eq_true'] at h ho
+  rcases h with ⟨hx, _⟩ | ⟨⟨_, h1⟩, h2⟩
+  · have : x = .nan := by cases x <;> simp_all [XR.isNaN]
+    subst this; cases lo <;> cases hi <;> simp [XR.lt] at ho
+  · rcases ho with ho | ho <;> simp_all
+end eps
+
+section lists
+variable {α : Type} [LinearOrder α]
+
+theorem map3_length {β γ : Type} (f : β → β → β → γ) (n : Nat) :
+    ∀ (a b c : List β), a.length = n → b.length = n → c.length = n → (map3 f a b c).length = n := by
+  induction n with
+  | zero => intro a b c ha hb hc; cases a <;> simp_all [map3]
+  | succ n ih =>
+    intro a b c ha hb hc
+    cases a <;> cases b <;> cases c <;> simp_all [map3]
+
+theorem clipAll_length (n : Nat) (xs lo hi : List (XR α)) (h1 : xs.length = n) (h2 : lo.length = n)
+    (h3 : hi.length = n) : (clipAll xs lo hi).length = n := map3_length _ n xs lo hi h1 h2 h3
+
+theorem XR.isNaN_eq_nan {x : XR α} (h : x.isNaN = true) : x = .nan := by
+  cases x <;> simp_all [XR.isNaN]
+
+theorem okElem_clipNp (an : Bool) (x l h : XR α) (hb : boundElem l h = true) (hx : x.isNaN = true → an = true) :
+    okElem an (XR.clipNp x l h) l h = true := by
+  simp only [boundElem, Bool.and_eq_true, Bool.not_eq_true'] at hb
+  obtain ⟨⟨hl, hh⟩, hlt⟩ := hb
+  cases hn : x.isNaN
+  · simp [okElem, XR.clipNp_within x l h hn hl hh hlt]
+  · have := XR.isNaN_eq_nan hn; subst this
+    simp [okElem, XR.clipNp_nan, XR.isNaN, hx hn]
+
+/-- `np.clip` re-establishes the value invariant (whatever the lengths: `map3` / `all3` truncate alike) -/
+theorem valuesOk_clipAll (an : Bool) : ∀ (xs lo hi : List (XR α)), boundsOk lo hi = true →
+    (xs.any XR.isNaN = true → an = true) → valuesOk an (clipAll xs lo hi) lo hi = true := by
+  intro xs
+  induction xs with
+  | nil => intro lo hi _ _; simp [clipAll, map3, valuesOk, all3]
+  | cons x xs ih =>
+    intro lo hi hb hn
+    cases lo with
+    | nil => simp [clipAll, map3, valuesOk, all3]
+    | cons l lo =>
+      cases hi with
+      | nil => simp [clipAll, map3, valuesOk, all3]
+      | cons h hi =>
+        simp only [boundsOk, all2, Bool.and_eq_true] at hb
+        simp only [clipAll, map3, valuesOk, all3, Bool.and_eq_true]
+        refine ⟨okElem_clipNp an x l h hb.1 (fun hx => hn (by simp [hx])), ?_⟩
+        exact ih lo hi hb.2 (fun hx => hn (by simp only [List.any_cons, hx, Bool.or_true]))
+
+theorem okElem_clip_self (an : Bool) (x l h : XR α) (hb : boundElem l h = true) (hx : okElem an x l h = true) :
+    XR.clipNp x l h = x := by
+  simp only [boundElem, Bool.and_eq_true, Bool.not_eq_true'] at hb
+  simp only [okElem, Bool.or_eq_true, Bool.and_eq_true] at hx
+  rcases hx with ⟨hn, _⟩ | hw
+  · have := XR.isNaN_eq_nan hn; subst this; exact XR.clipNp_nan _ _
+  · exact XR.clipNp_of_within x l h hb.1.1 hb.1.2 hw
+
+/-- values that already satisfy the invariant are returned unchanged by the clipping -/
+theorem clipAll_eq_self (an : Bool) : ∀ (xs lo hi : List (XR α)), boundsOk lo hi = true →
+    valuesOk an xs lo hi = true → xs.length = lo.length → xs.length = hi.length → clipAll xs lo hi = xs := by
+  intro xs
+  induction xs with
+  | nil => intro lo hi _ _ _ _; cases lo <;> cases hi <;> simp [clipAll, map3]
+  | cons x xs ih =>
+    intro lo hi hb hv h1 h2
+    cases lo with
+    | nil => simp at h1
+    | cons l lo =>
+      cases hi with
+      | nil => simp at h2
+      | cons h hi =>
+        simp only [boundsOk, all2, Bool.and_eq_true] at hb
+        simp only [valuesOk, all3, Bool.and_eq_true] at hv
+        simp only [clipAll, map3, List.cons.injEq]
+        exact ⟨okElem_clip_self an x l h hb.1 hv.1, ih lo hi hb.2 hv.2 (by simpa using h1) (by simpa using h2)⟩
+
+theorem all3_set {β : Type} (p : β → β → β → Bool) : ∀ (xs lo hi : List β) (i : Nat) (x l h : β),
+    all3 p xs lo hi = true → lo[i]? = some l → hi[i]? = some h → p x l h = true →
+    all3 p (xs.set i x) lo hi = true := by
+  intro xs
+  induction xs with
+  | nil => intro lo hi i x l h _ _ _ _; simp [all3]
+  | cons y ys ih =>
+    intro lo hi i x l h ha hl hh hp
+    cases lo with
+    | nil => simp at hl
+    | cons l0 lo =>
+      cases hi with
+      | nil => simp at hh
+      | cons h0 hi =>
+        simp only [all3, Bool.and_eq_true] at ha
+        cases i with
+        | zero =>
+          simp only [List.getElem?_cons_zero, Option.some.injEq] at hl hh
+          subst hl; subst hh
+          simp [all3, hp, ha.2]
+        | succ i =>
+          simp only [List.getElem?_cons_succ] at hl hh
+          simp only [List.set_cons_succ, all3, Bool.and_eq_true]
+          exact ⟨ha.1, ih lo hi i x l h ha.2 hl hh hp⟩
+
+theorem all2_get {β : Type} (p : β → β → Bool) : ∀ (lo hi : List β) (i : Nat) (l h : β),
+    all2 p lo hi = true → lo[i]? = some l → hi[i]? = some h → p l h = true := by
+  intro lo
+  induction lo with
+  | nil => intro hi i l h _ hl; simp at hl
+  | cons l0 lo ih =>
+    intro hi i l h ha hl hh
+    cases hi with
+    | nil => simp at hh
+    | cons h0 hi =>
+      simp only [all2, Bool.and_eq_true] at ha
+      cases i with
+      | zero => simp only [List.getElem?_cons_zero, Option.some.injEq] at hl hh; subst hl; subst hh; exact ha.1
+      | succ i => simp only [List.getElem?_cons_succ] at hl hh; exact ih hi i l h ha.2 hl hh
+
+theorem all3_get {β : Type} (p : β → β → β → Bool) : ∀ (xs lo hi : List β) (i : Nat) (x l h : β),
+    all3 p xs lo hi = true → xs[i]? = some x → lo[i]? = some l → hi[i]? = some h → p x l h = true := by
+  intro xs
+  induction xs with
+  | nil => intro lo hi i x l h _ hx; simp at hx
+  | cons y ys ih =>
+    intro lo hi i x l h ha hx hl hh
+    cases lo with
+    | nil => simp at hl
+    | cons l0 lo =>
+      cases hi with
+      | nil => simp at hh
+      | cons h0 hi =>
+        simp only [all3, Bool.and_eq_true] at ha
+        cases i with
+        | zero =>
+          simp only [List.getElem?_cons_zero, Option.some.injEq] at hx hl hh
+          subst hx; subst hl; subst hh; exact ha.1
+        | succ i => simp only [List.getElem?_cons_succ] at hx hl hh; exact ih lo hi i x l h ha.2 hx hl hh
+
+theorem clipAll_inf (n : Nat) : ∀ (m : List (XR α)), m.length = n →
+    clipAll m (List.replicate n .ninf) (List.replicate n .pinf) = m := by
+  induction n with
+  | zero => intro m h; cases m <;> simp_all [clipAll, map3]
+  | succ n ih =>
+    intro m h
+    cases m with
+    | nil => simp at h
+    | cons x m =>
+      simp only [List.replicate_succ, clipAll, map3, XR.clipNp_inf, List.cons.injEq, true_and]
+      exact ih m (by simpa using h)
+
+/-- `maxs` after the constructor's clipping against `mins`: a real interval in every position -/
+theorem boundsOk_clip_maxs (n : Nat) : ∀ (lo m : List (XR α)), lo.length = n → m.length = n →
+    lo.any XR.isNaN = false → m.any XR.isNaN = false →
+    boundsOk lo (clipAll m lo (List.replicate n .pinf)) = true := by
+  induction n with
+  | zero => intro lo m h1 h2 _ _; cases lo <;> cases m <;> simp_all [boundsOk, all2, clipAll, map3]
+  | succ n ih =>
+    intro lo m h1 h2 hl hm
+    cases lo with
+    | nil => simp at h1
+    | cons l lo =>
+      cases m with
+      | nil => simp at h2
+      | cons x m =>
+        simp only [List.any_cons, Bool.or_eq_false_iff] at hl hm
+        simp only [List.replicate_succ, clipAll, map3, boundsOk, all2, Bool.and_eq_true]
+        refine ⟨?_, ih lo m (by simpa using h1) (by simpa using h2) hl.2 hm.2⟩
+        have hw := XR.clipNp_within x l .pinf hm.1 hl.1 (by simp [XR.isNaN]) (by cases l <;> simp [XR.lt])
+        simp only [XR.within, Bool.and_eq_true, Bool.not_eq_true'] at hw
+        simp [boundElem, hl.1, hw.1.1, hw.1.2]
+
+theorem boundsOk_replicate (n : Nat) :
+    boundsOk (List.replicate n (.ninf : XR α)) (List.replicate n .pinf) = true := by
+  induction n with
+  | zero => simp [boundsOk, all2]
+  | succ n ih => simpa [List.replicate_succ, boundsOk, all2, boundElem, XR.isNaN, XR.lt] using ih
+
+theorem any_isNaN_replicate (n : Nat) (x : XR α) (hx : x.isNaN = false) :
+    (List.replicate n x).any XR.isNaN = false := by
+  induction n with
+  | zero => simp
+  | succ n ih => simp [List.replicate_succ, hx, ih]
+
+/-- no NaN among the bounds that `boundsOk` accepts -/
+theorem boundsOk_noNaN : ∀ (lo hi : List (XR α)), boundsOk lo hi = true → lo.length = hi.length →
+    lo.any XR.isNaN = false ∧ hi.any XR.isNaN = false := by
+  intro lo
+  induction lo with
+  | nil => intro hi _ h; cases hi <;> simp_all
+  | cons l lo ih =>
+    intro hi hb h
+    cases hi with
+    | nil => simp at h
+    | cons h0 hi =>
+      simp only [boundsOk, all2, Bool.and_eq_true, boundElem, Bool.not_eq_true'] at hb
+      have := ih hi (by simpa [boundsOk] using hb.2) (by simpa using h)
+      simp [hb.1.1.1, hb.1.1.2, this.1, this.2]
+
+end lists
+
+section lists_eps
+variable {α : Type} [LinearOrder α] [AddCommGroup α] [IsOrderedAddMonoid α]
+
+/-- values satisfying the invariant never trigger the constructor / setter hit test -/
+theorem hitAll_false_of_ok {eps : α} (heps : 0 ≤ eps) (an : Bool) : ∀ (xs lo hi : List (XR α)),
+    valuesOk an xs lo hi = true → hitAll eps xs lo hi = false := by
+  intro xs
+  induction xs with
+  | nil => intro lo hi _; simp [hitAll, any3]
+  | cons x xs ih =>
+    intro lo hi hv
+    cases lo with
+    | nil => simp [hitAll, any3]
+    | cons l lo =>
+      cases hi with
+      | nil => simp [hitAll, any3]
+      | cons h hi =>
+        simp only [valuesOk, all3, Bool.and_eq_true] at hv
+        simp only [hitAll, any3, Bool.or_eq_false_iff]
+        exact ⟨XR.outsideEps_false_of_ok heps an x l h hv.1, ih lo hi hv.2⟩
+end lists_eps
+
 end HydroVerif.C12
